@@ -64,6 +64,14 @@ def convert_type(T, ctx):
     else:
         raise Z3Exception("convert: unsupported type " + repr(T))
 
+def has_nat_range(T):
+    """Whether T is a function type with nat as one of its result types."""
+    while T.is_fun():
+        T = T.range_type()
+        if T == NatType:
+            return True
+    return False
+
 def convert_const(name, T, ctx):
     z3_T = convert_type(T, ctx)
     if isinstance(z3_T, tuple):
@@ -84,13 +92,23 @@ def convert(t, var_names, assms, to_real, ctx):
             var_names.append(nm)
             v = Var(nm, t.arg.var_T)
             z3_v = convert_const(nm, t.arg.var_T, ctx)
-            return z3.ForAll(z3_v, rec(t.arg.subst_bound(v)))
+            body = rec(t.arg.subst_bound(v))
+            if t.arg.var_T == NatType:
+                body = z3.Implies(z3_v >= 0, body)
+            elif has_nat_range(t.arg.var_T):
+                raise Z3Exception("convert: unsupported bound variable type " + repr(t.arg.var_T))
+            return z3.ForAll(z3_v, body)
         elif t.is_exists():
             nm = name.get_variant_name(t.arg.var_name, var_names)
             var_names.append(nm)
             v = Var(nm, t.arg.var_T)
             z3_v = convert_const(nm, t.arg.var_T, ctx)
-            return z3.Exists(z3_v, rec(t.arg.subst_bound(v)))
+            body = rec(t.arg.subst_bound(v))
+            if t.arg.var_T == NatType:
+                body = z3.And(z3_v >= 0, body)
+            elif has_nat_range(t.arg.var_T):
+                raise Z3Exception("convert: unsupported bound variable type " + repr(t.arg.var_T))
+            return z3.Exists(z3_v, body)
         elif t.is_number():
             return t.dest_number()
         elif t.is_implies():
